@@ -1871,6 +1871,6 @@ MA('C08', 'translation merges its linear term into a quadratic perturbation and 
    'translated')
 MA('C05', 'pointwise inner product returns before weighting a single component',
    'odl/operator/tensor_ops.py', 'PointwiseInner._call',
-   'if self.is_weighted:...',
-   'if self.is_weighted and len(self.domain) > 1:\n    out *= self.weights[0]',
+   'out *= self.weights[0]',
+   'if len(self.domain) > 1:\n    out *= self.weights[0]',
    'length 1')
